@@ -69,6 +69,8 @@ type Contract struct {
 	Uses     []string // tags whose callee postconditions this function's proof relies on
 	Synth    bool     // synthesised from type invariants
 	NoTypeInv bool    // do not add the parameters' type invariants
+	Assumes  []*Clause // assumed at entry, never checked at call sites (domain restrictions; listed in the evidence)
+	TrustKinds []string // obligation kinds not generated for this function (assumed; listed in the evidence)
 	tiMerged bool
 }
 
@@ -80,9 +82,21 @@ type ContractSet struct {
 	Axioms map[string][]*Clause // package path -> axioms over package-level state
 	Devirt map[string]string   // interface type (full name) -> concrete type expression, with the declaring package path: "<pkgpath>|<type>"
 	TypeInvs map[string]string // type (full name) -> "<pkgpath>|<pred name>"
+	Schemas  []*Schema
 }
 
-var reKeyword = regexp.MustCompile(`^(func|pred|spec|axiom|devirt|typeinv|notypeinv|uses|requires|ensures(\[[^\]]*\])?|assigns|loop|inline|trusted|pure|lemma)\b`)
+// Schema: one contract template for every function whose name matches Re (and for calls through values of the named func type).
+type Schema struct {
+	Name     string
+	Pkg      string
+	Re       *regexp.Regexp
+	Except   *regexp.Regexp
+	TypeName string
+	C        *Contract
+	CallReq  []*Clause // requires checked at calls through the function type (defaults to C.Requires)
+}
+
+var reKeyword = regexp.MustCompile(`^(func|schema|assumes|trustkind|pred|spec|axiom|devirt|typeinv|typereq|callrequires|notypeinv|uses|requires|ensures(\[[^\]]*\])?|assigns|loop|inline|trusted|pure|lemma)\b`)
 
 func loadContracts(pkgDirs map[string]string) *ContractSet {
 	cs := &ContractSet{ByFunc: map[string]*Contract{}, Specs: map[string]*SpecFn{}, Axioms: map[string][]*Clause{}, Devirt: map[string]string{}, TypeInvs: map[string]string{}}
@@ -129,6 +143,7 @@ func (cs *ContractSet) parseFile(pkgPath, file, src string) {
 		}
 	}
 	var cur *Contract
+	var curSchema *Schema
 	for _, it := range items {
 		t := it.text
 		word := t
@@ -153,13 +168,52 @@ func (cs *ContractSet) parseFile(pkgPath, file, src string) {
 			return &Clause{Kind: kind, Tags: tags, F: f, Text: text, Line: it.line, File: file}
 		}
 		switch word {
+		case "callrequires":
+			if curSchema == nil || cur != curSchema.C {
+				cs.errf(file, it.line, "callrequires outside schema")
+				continue
+			}
+			if c := mk("requires", rest); c != nil {
+				curSchema.CallReq = append(curSchema.CallReq, c)
+			}
 		case "func":
+			curSchema = nil
 			cur = &Contract{Func: rest, Pkg: pkgPath, Invs: map[int][]*Clause{}, Decr: map[int]*Clause{}, NoTerm: map[int]bool{}, Unroll: map[int]int{}, Line: it.line, File: file}
 			key := pkgPath + "." + rest
 			if _, dup := cs.ByFunc[key]; dup {
 				cs.errf(file, it.line, "duplicate contract for %s", rest)
 			}
 			cs.ByFunc[key] = cur
+		case "schema":
+			// schema <name> func <regexp> [type <FuncTypeName>]
+			f := strings.Fields(rest)
+			if len(f) < 3 || f[1] != "func" {
+				cs.errf(file, it.line, "bad schema header")
+				continue
+			}
+			re, err := regexp.Compile(f[2])
+			if err != nil {
+				cs.errf(file, it.line, "bad schema regexp: %v", err)
+				continue
+			}
+			sch := &Schema{Name: f[0], Pkg: pkgPath, Re: re}
+			for k := 3; k+1 < len(f); k += 2 {
+				switch f[k] {
+				case "type":
+					sch.TypeName = f[k+1]
+				case "except":
+					ex, err := regexp.Compile(f[k+1])
+					if err != nil {
+						cs.errf(file, it.line, "bad schema except regexp: %v", err)
+					} else {
+						sch.Except = ex
+					}
+				}
+			}
+			curSchema = sch
+			cur = &Contract{Func: "schema:" + f[0], Pkg: pkgPath, Invs: map[int][]*Clause{}, Decr: map[int]*Clause{}, NoTerm: map[int]bool{}, Unroll: map[int]int{}, Line: it.line, File: file}
+			sch.C = cur
+			cs.Schemas = append(cs.Schemas, sch)
 		case "pred", "spec":
 			sf, err := parseSpecFn(rest, word == "pred")
 			if err != nil {
@@ -188,6 +242,26 @@ func (cs *ContractSet) parseFile(pkgPath, file, src string) {
 				continue
 			}
 			cs.TypeInvs[pkgPath+"|"+f[0]] = f[1]
+		case "typereq":
+			// like typeinv, but only required of parameters, not ensured afterwards (abstract streams whose ghost state callees may havoc)
+			f := strings.Fields(rest)
+			if len(f) != 2 {
+				cs.errf(file, it.line, "bad typereq")
+				continue
+			}
+			cs.TypeInvs[pkgPath+"|"+f[0]] = "?" + f[1]
+		case "assumes":
+			if cur == nil {
+				cs.errf(file, it.line, "assumes outside func")
+				continue
+			}
+			if c := mk("assumes", rest); c != nil {
+				cur.Assumes = append(cur.Assumes, c)
+			}
+		case "trustkind":
+			if cur != nil {
+				cur.TrustKinds = append(cur.TrustKinds, strings.Fields(rest)...)
+			}
 		case "requires", "ensures":
 			if cur == nil {
 				cs.errf(file, it.line, "%s outside func", word)
